@@ -383,6 +383,30 @@ func (e *Engine) makeSlice(g *Goroutine, t types.Type, ln, cp *term.T) Value {
 	sz := e.sizeOf(et)
 	ln = e.tb.Resize(ln, 64, true)
 	cp = e.tb.Resize(cp, 64, true)
+	if !cp.IsConst() && ln.IsConst() {
+		// symbolic capacity hint: checked for the run-time panics and the allocation budget,
+		// then replaced by the length (capacity is not observable by well-behaved code)
+		if !e.Branch(e.tb.Not(e.tb.Cmp(term.KSlt, cp, e.c64(0)))) {
+			e.goPanic(g, "makeslice: cap out of range")
+			return e.zeroValue(t)
+		}
+		if !e.Branch(e.tb.Cmp(term.KUle, ln, cp)) {
+			e.goPanic(g, "makeslice: len out of range")
+			return e.zeroValue(t)
+		}
+		limit := e.p.maxAlloc / int64(sz+0)
+		if sz > 0 {
+			limit = e.p.maxAlloc / int64(sz)
+		}
+		if !e.Branch(e.tb.Cmp(term.KUle, cp, e.c64(limit))) {
+			if e.p.allocViol {
+				e.recordViolation("alloc", "oversized-allocation", e.siteOf(g.top), "allocation capacity above the budget reachable", nil)
+				e.abort("violation", "alloc")
+			}
+			// over the engine's allocation bound: continue with the length as capacity
+		}
+		cp = ln
+	}
 	c, ok := e.allocSize(g, cp, sz, "make cap")
 	if !ok {
 		return e.zeroValue(t)
